@@ -13,10 +13,11 @@ import (
 )
 
 type gen struct {
-	r     *rng
-	ops   []string
-	thor  bool
-	scale int
+	r       *rng
+	ops     []string
+	thor    bool
+	scale   int
+	grouped bool
 }
 
 func (g *gen) add(f string, a ...interface{}) { g.ops = append(g.ops, fmt.Sprintf(f, a...)) }
@@ -56,7 +57,7 @@ func (g *gen) fieldArith(pk string, m *big.Int) {
 	r := g.r
 	limbs := (m.BitLen() + 63) / 64
 	R := pow2(64 * limbs)
-	N := g.n(400, 6000)
+	N := g.n(300, 6000)
 	for i := 0; i < N; i++ {
 		x, y := r.fpair(m)
 		for _, op := range []string{"add", "sub", "mul", "div"} {
@@ -521,7 +522,9 @@ func (g *gen) curve() {
 	for _, s := range sc {
 		g.add("bj.mul %s %s", s, pt(babyjub.B8))
 		g.add("bj.mul %s %s", s, pt(fullG))
+		g.add("bj.mulconst %s", s)
 	}
+	g.add("bj.addconst")
 }
 
 func (g *gen) membership() {
@@ -1069,6 +1072,15 @@ func (g *gen) mixed(n int) {
 		sg.add("bj.coordsign %s", h)
 	}
 	pool := sg.ops
+	// ops that hand package-level constants to the library and then write through the result
+	var constOps []string
+	for _, s := range g.scalars() {
+		constOps = append(constOps, fmt.Sprintf("bj.mulconst %s", s))
+	}
+	for i := 0; i < 12; i++ {
+		constOps = append(constOps, fmt.Sprintf("bj.mulconst %d", i))
+	}
+	constOps = append(constOps, "bj.addconst")
 	snap := []string{"bj.consts", "poseidon.consts", "mimc7.consts", "golden.tablesum", "ff.one", "ffg.one", "ff.modulus", "ffg.modulus"}
 	for t := 2; t <= 17; t++ {
 		snap = append(snap, fmt.Sprintf("poseidon.tablesum %d", t))
@@ -1093,8 +1105,31 @@ func (g *gen) mixed(n int) {
 			g.add(snap[g.r.intn(len(snap))])
 		}
 	}
+	for _, s := range constOps {
+		g.add(s)
+		g.add("bj.consts")
+	}
 	for _, s := range snap {
 		g.add(s)
+	}
+	if g.grouped {
+		// ops of the same kind side by side: with op i on goroutine i mod conc, calls of the same function
+		// with different arguments run simultaneously
+		byKind := map[string][]string{}
+		var kinds []string
+		for _, op := range pool {
+			k := strings.SplitN(strings.SplitN(op, " ", 2)[0], "@", 2)[0]
+			if _, ok := byKind[k]; !ok {
+				kinds = append(kinds, k)
+			}
+			byKind[k] = append(byKind[k], op)
+		}
+		for _, k := range kinds {
+			l := byKind[k]
+			for i := 0; i < 96; i++ {
+				g.add(l[g.r.intn(len(l))])
+			}
+		}
 	}
 }
 
@@ -1135,7 +1170,8 @@ func generate(prop string, thor bool, seed uint64) []string {
 	case "C16":
 		g.mixed(g.n(6000, 60000))
 	case "C17":
-		g.mixed(g.n(4000, 40000))
+		g.grouped = true
+		g.mixed(g.n(3000, 30000))
 	case "C18":
 		g.sqrtLegendre("ff", Q)
 		g.sqrtLegendre("ffg", GP)
